@@ -675,6 +675,8 @@ class Daemon(object):
                     raise errors.DaemonError("object or class already has a Pyro id")
             if objectId in self.objectsById:
                 raise errors.DaemonError("an object or class is already registered with that id")
+        # (an object that cannot be weakly referenced is refused here, before anything has been changed)
+        ref = weakref.ref(obj_or_class) if weak else None
         # set some pyro attributes
         obj_or_class._pyroId = objectId
         obj_or_class._pyroDaemon = self
@@ -687,7 +689,6 @@ class Daemon(object):
                 ser.register_type_replacement(type(obj_or_class), _pyro_obj_to_auto_proxy)
         # register the object/class in the mapping
         if weak:
-            ref = weakref.ref(obj_or_class)
             self.objectsById[objectId] = ref
             weakref.finalize(obj_or_class, self._unregisterWeak, objectId, ref)
         else:
